@@ -3,7 +3,7 @@ from checks import krill_common as kc
 
 PID = "C02"
 LEVEL = "model_checking"
-THEMES = "chain,roll,multi,mix,foreign".split(",")
+THEMES = "chain,roll,multi,mix,foreign,deep".split(",")
 NEEDED = "ChildRes,Settled".split(",")
 
 RULE = (
@@ -62,7 +62,8 @@ def run(tier, seed):
                   + kc.clause("chain-shrink-after-suspension",
                               "shrink-to-nothing", "foreign-limit-shrink",
                               "foreign-limit-refused")),
-        theme_nums={"multi": (6, 80), "mix": (4, 60), "foreign": (6, 80)})
+        theme_nums={"multi": (6, 80), "mix": (4, 60), "foreign": (6, 80),
+                    "deep": (4, 60)})
 
 
 def replay(path, seed):
